@@ -25,11 +25,11 @@ def ir_text(cfg, path, defs=(), extra_inc=()):
     return txt
 
 
-def load_modules(cfg, names, defs=(), wrappers=()):
+def load_modules(cfg, names, defs=(), wrappers=(), bodies=True):
     """names: files under /repo/src; wrappers: absolute paths of wrapper TUs under /verif/harness/tu."""
     mods = []
     for n in names:
-        mods.append(ir.parse_module(ir_text(cfg, os.path.join(REPO, "src", n), defs)))
+        mods.append(ir.parse_module(ir_text(cfg, os.path.join(REPO, "src", n), defs), bodies=bodies))
     for w in wrappers:
         mods.append(ir.parse_module(ir_text(cfg, w, defs)))
     return mods
